@@ -83,10 +83,38 @@ Theorem C07_add_dur_lt_mono :
 Proof. exact add_dur_lt_mono. Qed.
 Print Assumptions C07_add_dur_lt_mono.
 
-Theorem C07_diff_exact :
-  forall a b, 100 * diff a b = (value a - value b) - Z.rem (ns a - ns b) 100.
-Proof. exact diff_exact. Qed.
-Print Assumptions C07_diff_exact.
+(* ---- operator-(time_point, time_point), current code (repo commit 69a85c3): diff ---- *)
+
+Theorem C07_diff_trunc :
+  forall a b, canonical a -> canonical b -> diff a b = Z.quot (value a - value b) 100.
+Proof. exact diff_trunc. Qed.
+Print Assumptions C07_diff_trunc.
+
+(* weaker hypotheses that suffice; canonicity of both points implies them *)
+Theorem C07_diff_trunc_gen :
+  forall a b,
+    (0 < sec a - sec b -> - ns_per_sec <= ns a - ns b) ->
+    (sec a - sec b < 0 -> ns a - ns b <= ns_per_sec) ->
+    diff a b = Z.quot (value a - value b) 100.
+Proof. exact diff_trunc_gen. Qed.
+Print Assumptions C07_diff_trunc_gen.
+
+(* ... and some hypothesis is needed: (2 s, -1 000 000 001 ns) - (0, 0) *)
+Theorem C07_diff_trunc_needs_hyp :
+  exists a b, diff a b <> Z.quot (value a - value b) 100.
+Proof. exact diff_trunc_needs_hyp. Qed.
+Print Assumptions C07_diff_trunc_needs_hyp.
+
+Theorem C07_add_diff_le :
+  forall a b, canonical a -> canonical b ->
+    canonical (add_dur b (diff a b)) /\
+    (value b <= value a ->
+       value b <= value (add_dur b (diff a b)) <= value a) /\
+    (value a <= value b ->
+       value a <= value (add_dur b (diff a b)) <= value b) /\
+    Z.abs (value a - value (add_dur b (diff a b))) < 100.
+Proof. exact add_diff_le. Qed.
+Print Assumptions C07_add_diff_le.
 
 Theorem C07_diff_error_bound :
   forall a b, Z.abs (100 * diff a b - (value a - value b)) < 100.
@@ -98,10 +126,28 @@ Theorem C07_diff_add_any :
 Proof. exact diff_add_any. Qed.
 Print Assumptions C07_diff_add_any.
 
+Theorem C07_diff_sub_any :
+  forall t d, diff t (sub_dur t d) = d.
+Proof. exact diff_sub_any. Qed.
+Print Assumptions C07_diff_sub_any.
+
+Theorem C07_diff_self :
+  forall a, diff a a = 0.
+Proof. exact diff_self. Qed.
+Print Assumptions C07_diff_self.
+
 Theorem C07_diff_antisym :
   forall a b, diff a b = - diff b a.
 Proof. exact diff_antisym. Qed.
 Print Assumptions C07_diff_antisym.
+
+Theorem C07_diff_sign :
+  forall a b,
+    (diff a b < 0 -> value a < value b) /\
+    (0 < diff a b -> value b < value a) /\
+    (value a = value b -> diff a b = 0).
+Proof. exact diff_sign. Qed.
+Print Assumptions C07_diff_sign.
 
 Theorem C07_diff_mono :
   forall a a' b, canonical a -> canonical a' ->
@@ -115,21 +161,41 @@ Theorem C07_diff_exact_on_grid :
 Proof. exact diff_exact_on_grid. Qed.
 Print Assumptions C07_diff_exact_on_grid.
 
-Theorem C07_diff_trunc_iff :
+(* ---- operator-(time_point, time_point) as written before the fix: diff_w ---- *)
+
+Theorem C07_diff_exact_as_written :
+  forall a b, 100 * diff_w a b = (value a - value b) - Z.rem (ns a - ns b) 100.
+Proof. exact diff_w_exact. Qed.
+Print Assumptions C07_diff_exact_as_written.
+
+Theorem C07_diff_error_bound_as_written :
+  forall a b, Z.abs (100 * diff_w a b - (value a - value b)) < 100.
+Proof. exact diff_w_error_bound. Qed.
+Print Assumptions C07_diff_error_bound_as_written.
+
+Theorem C07_diff_trunc_iff_as_written :
   forall a b,
-    diff a b = Z.quot (value a - value b) 100 <->
+    diff_w a b = Z.quot (value a - value b) 100 <->
     (Z.rem (ns a - ns b) 100 = 0 \/
      (0 <= value a - value b /\ 0 <= ns a - ns b) \/
      (value a - value b <= 0 /\ ns a - ns b <= 0)).
-Proof. exact diff_trunc_iff. Qed.
-Print Assumptions C07_diff_trunc_iff.
+Proof. exact diff_w_trunc_iff. Qed.
+Print Assumptions C07_diff_trunc_iff_as_written.
 
-(* REFUTED: operator-(time_point, time_point) is not the true difference truncated toward zero
-   (witness (1 s, 0 ns) - (0 s, 1 ns) = 10 000 000 ticks; the true difference is 9 999 999.99 ticks). *)
-Theorem C07_diff_not_trunc_refuted :
-  exists a b, canonical a /\ canonical b /\ diff a b <> Z.quot (value a - value b) 100.
+(* REFUTED for the code as written before the fix: operator-(time_point, time_point) was not the
+   true difference truncated toward zero (witness (1 s, 0 ns) - (0 s, 1 ns) = 10 000 000 ticks; the
+   true difference is 9 999 999.99 ticks) ... *)
+Theorem C07_diff_not_trunc_refuted_as_written :
+  exists a b, canonical a /\ canonical b /\ diff_w a b <> Z.quot (value a - value b) 100.
 Proof. exact diff_not_trunc_refuted. Qed.
-Print Assumptions C07_diff_not_trunc_refuted.
+Print Assumptions C07_diff_not_trunc_refuted_as_written.
+
+(* ... so that b + (a - b) could be later than a. *)
+Theorem C07_add_diff_overshoots_as_written :
+  exists a b, canonical a /\ canonical b /\ value b <= value a /\
+    lt a (add_dur b (diff_w a b)) = true.
+Proof. exact add_diff_w_overshoots. Qed.
+Print Assumptions C07_add_diff_overshoots_as_written.
 
 Theorem C07_insert_timed_split :
   forall x l,
@@ -218,7 +284,9 @@ Print Assumptions C07_requeue_NoDup_ids.
 (* the hypotheses are met by concrete non-trivial cases *)
 Example C07_ex_normalize : from_s_ns (-1) 1000000001 = mk_tp 0 1.
 Proof. vm_compute. reflexivity. Qed.
-Example C07_ex_diff_witness : diff (mk_tp 1 0) (mk_tp 0 1) = 10000000 /\ Z.quot (value (mk_tp 1 0) - value (mk_tp 0 1)) 100 = 9999999.
+Example C07_ex_diff_witness_as_written : diff_w (mk_tp 1 0) (mk_tp 0 1) = 10000000 /\ Z.quot (value (mk_tp 1 0) - value (mk_tp 0 1)) 100 = 9999999.
 Proof. vm_compute. split; reflexivity. Qed.
+Example C07_ex_diff_witness : diff (mk_tp 1 0) (mk_tp 0 1) = 9999999.
+Proof. vm_compute. reflexivity. Qed.
 Example C07_ex_insert_fifo : map id (insert_all [(30, 0%nat); (10, 1%nat); (10, 2%nat); (5, 3%nat); (10, 4%nat)] []) = [3; 1; 2; 4; 0]%nat.
 Proof. vm_compute. reflexivity. Qed.
